@@ -37,6 +37,7 @@ type efRow struct {
 	Commit int    `json:"commit"`
 	Exists bool   `json:"exists"`
 	Svsm   string `json:"svsm"`
+	Shapes string `json:"shapes"`
 }
 type efOut struct {
 	Stage     string `json:"stage"`
@@ -46,6 +47,7 @@ type efOut struct {
 	Svn       int    `json:"svn"`
 	Svsm      bool   `json:"svsm"`
 	ImageRead bool   `json:"imageRead"`
+	NShapes   int    `json:"nshapes"`
 }
 
 var errStopBeforeRun = fmt.Errorf("stop before the run function (harness)")
@@ -70,6 +72,9 @@ func (s *snapComp) InitContext(ctx context.Context) (context.Context, error) {
 	o := &efOut{Stage: "run", Res: "ok", Snp: ec.SevSnp != nil, Tdx: ec.Tdx != nil, Svsm: len(ec.SvsmSnpMeasurement) == 48, ImageRead: ec.Image != nil}
 	if ec.SevSnp != nil {
 		o.Svn = int(ec.SevSnp.Svn)
+	}
+	if ec.Tdx != nil {
+		o.NShapes = len(ec.Tdx.MachineShapes)
 	}
 	if ec.Tdx != nil && ec.Tdx.Svn != 0 {
 		o.Svn = int(ec.Tdx.Svn)
@@ -100,7 +105,10 @@ func runEfRow(r efRow) (efOut, string, error) {
 			return efOut{}, "", err
 		}
 	}
-	ver := func(v uint32) []byte { b, _ := proto.Marshal(&edk2pb.SCRTMVersion{Version: edk2pb.FirmwareVersion_Version(v)}); return b }
+	ver := func(v uint32) []byte {
+		b, _ := proto.Marshal(&edk2pb.SCRTMVersion{Version: edk2pb.FirmwareVersion_Version(v)})
+		return b
+	}
 	sibling, suffix := filepath.Join(dir, "fw_scrtm_ver.pb"), fw+".scrtm.pb"
 	switch r.Scrtm {
 	case "sibling":
@@ -120,6 +128,16 @@ func runEfRow(r efRow) (efOut, string, error) {
 	}
 	if r.AddTdx {
 		args = append(args, "--add_tdx")
+	}
+	switch r.Shapes {
+	case "one":
+		args = append(args, "--tdx_machine_shapes", "c3-standard-4")
+	case "comma":
+		args = append(args, "--tdx_machine_shapes=c3-standard-4,c3-standard-8")
+	case "repeated":
+		args = append(args, "--tdx_machine_shapes", "c3-standard-4", "--tdx_machine_shapes", "c3-standard-8")
+	case "mixed":
+		args = append(args, "--tdx_machine_shapes", "c3-standard-4,c3-standard-8", "--tdx_machine_shapes=c3-standard-88")
 	}
 	id := func(flag, cls string) {
 		switch cls {
@@ -236,14 +254,14 @@ func RunEndorseFlags(run *vk.Run) {
 		}
 		want := c.Out
 		if want.Stage != "run" { // the request's contents are only compared when the command gets to the run function
-			want.Snp, want.Tdx, want.Svn, want.Svsm, want.ImageRead = false, false, 0, false, false
+			want.Snp, want.Tdx, want.Svn, want.Svsm, want.ImageRead, want.NShapes = false, false, 0, false, false, 0
 		}
 		mu.Lock()
 		defer mu.Unlock()
 		if got != want {
 			run.AddDrift(1)
 			if run.Drift <= 12 {
-				fmt.Printf("DRIFT engine=EndorseFlags row %+v: real %+v (%s), EndorseFlags.tla %+v\n", c.Row, got, errText, want)
+				fmt.Fprintf(vk.Stdout, "DRIFT engine=EndorseFlags row %+v: real %+v (%s), EndorseFlags.tla %+v\n", c.Row, got, errText, want)
 			}
 		}
 		j, _ := json.Marshal(c.Row)
